@@ -9,6 +9,8 @@ use tokio::io::{AsyncRead, AsyncWrite, ReadBuf};
 pub enum Ev {
     /// bytes written by the client in one poll_write
     Write(Vec<u8>),
+    /// a poll_write that was refused (connection gone)
+    WriteFailed,
     /// one successful poll_read: buffer space offered, bytes delivered
     Read { asked: usize, got: usize },
     /// the client polled for data while nothing was released / the stream had ended
@@ -38,17 +40,20 @@ pub struct Peer {
     pub gated: bool,
     /// the stream ends after this many bytes were delivered (transport level)
     pub eof_after: Option<usize>,
-    /// number of poll_write calls after which writes fail (None = never)
     pub reads_after_eof: usize,
+    /// the connection is gone for writing once this many complete client APDUs were accepted (None = never): the write of
+    /// the next APDU fails with BrokenPipe
+    pub fail_writes_after: Option<usize>,
+    pub failed_writes: usize,
 }
 
 impl Peer {
     pub fn scripted(script: Vec<Vec<u8>>, trailing: Vec<u8>, chunks: Vec<usize>) -> Self {
-        Peer { script, trailing, next: 0, inbox: vec![], cur: 0, outbuf: vec![], log: vec![], chunks, chunk_i: 0, pending_toggle: false, client_apdus: vec![], gated: true, eof_after: None, reads_after_eof: 0 }
+        Peer { script, trailing, next: 0, inbox: vec![], cur: 0, outbuf: vec![], log: vec![], chunks, chunk_i: 0, pending_toggle: false, client_apdus: vec![], gated: true, eof_after: None, reads_after_eof: 0, fail_writes_after: None, failed_writes: 0 }
     }
     /// transport level: all `data` is readable at once, optionally ending after `eof_after` bytes
     pub fn preloaded(data: Vec<u8>, chunks: Vec<usize>, eof_after: Option<usize>) -> Self {
-        Peer { script: vec![], trailing: vec![], next: 0, inbox: data, cur: 0, outbuf: vec![], log: vec![], chunks, chunk_i: 0, pending_toggle: false, client_apdus: vec![], gated: false, eof_after, reads_after_eof: 0 }
+        Peer { script: vec![], trailing: vec![], next: 0, inbox: data, cur: 0, outbuf: vec![], log: vec![], chunks, chunk_i: 0, pending_toggle: false, client_apdus: vec![], gated: false, eof_after, reads_after_eof: 0, fail_writes_after: None, failed_writes: 0 }
     }
     fn release(&mut self) {
         if self.next < self.script.len() {
@@ -104,6 +109,13 @@ impl Peer {
 
 impl AsyncWrite for Peer {
     fn poll_write(mut self: Pin<&mut Self>, _: &mut Context<'_>, buf: &[u8]) -> Poll<io::Result<usize>> {
+        if let Some(k) = self.fail_writes_after {
+            if self.client_apdus.len() >= k {
+                self.failed_writes += 1;
+                self.log.push(Ev::WriteFailed);
+                return Poll::Ready(Err(io::Error::new(io::ErrorKind::BrokenPipe, "connection closed by the terminal")));
+            }
+        }
         self.log.push(Ev::Write(buf.to_vec()));
         self.outbuf.extend_from_slice(buf);
         let n = self.complete_apdus();
